@@ -1,6 +1,7 @@
 package rules
 
 import (
+	"sort"
 	"fmt"
 	"go/token"
 	"strings"
@@ -23,6 +24,7 @@ func runC18(c *Ctx) {
 		"C18.1 every online writer of the resources table holds eventLock from before the read until after the event is published, publishes only after Commit, and writes only below the version-equal and UID-equal edges (creation only with an empty version)",
 		"C18.2 the resources table is written only by those CAS writers and by the restoration handle",
 		"C18.3 a failing internal step is never reported as success (no nil error returned on an err != nil edge)",
+		"C18.5 the snapshot handler reads only those fields of a subscription subject that the subject's String() — the key under which the publisher caches and shares snapshots — also reads",
 		"C18.4 a watch is a subscription to the topic whose registered snapshot handler lists the current resources under a read transaction of the same store; a restore refreshes that topic",
 	}
 	r.NotDecided = []string{"linearizability under real schedules", "raft backend forwarding", "duplicate suppression across Watch.Next calls (observation O9)"}
@@ -114,6 +116,7 @@ func runC18(c *Ctx) {
 	}
 
 	checkWatchWiring(c)
+	checkSubjectKeyCoversSnapshotInputs(c)
 }
 
 func checkCASWriter(c *Ctx, f *ssa.Function, table string) {
@@ -357,4 +360,80 @@ func checkWatchWiring(c *Ctx) {
 		}
 	}
 	r.Floor("C18.4", 2)
+}
+
+// C18.5
+func checkSubjectKeyCoversSnapshotInputs(c *Ctx) {
+	p, r := c.P, c.R
+	const pkg = "internal/storage/inmem"
+	snap := p.Func(pkg, "(*Store).watchSnapshot")
+	if snap == nil {
+		r.Unresolve("C18.5", "inmem.(*Store).watchSnapshot", "not found")
+		return
+	}
+	// fields of each subject type read by the handler (below a type assertion of the request's subject)
+	read := map[string]map[string]bool{}
+	for _, b := range snap.Blocks {
+		for _, in := range b.Instrs {
+			var x ssa.Value
+			var idx int
+			switch v := in.(type) {
+			case *ssa.Field:
+				x, idx = v.X, v.Field
+			case *ssa.FieldAddr:
+				x, idx = v.X, v.Field
+			default:
+				continue
+			}
+			_ = idx
+			nt := core.NamedOf(x.Type())
+			if nt == nil || !strings.HasSuffix(nt.Obj().Name(), "Subject") {
+				continue
+			}
+			if read[nt.Obj().Name()] == nil {
+				read[nt.Obj().Name()] = map[string]bool{}
+			}
+			read[nt.Obj().Name()][core.FieldObj(in.(ssa.Value)).Name()] = true
+		}
+	}
+	n := 0
+	for tn, fields := range read {
+		str := p.Func(pkg, tn+".String")
+		if str == nil {
+			r.Unresolve("C18.5", "inmem."+tn+".String", "not found")
+			continue
+		}
+		keyed := map[string]bool{}
+		for _, b := range str.Blocks {
+			for _, in := range b.Instrs {
+				switch v := in.(type) {
+				case *ssa.Field:
+					if nt := core.NamedOf(v.X.Type()); nt != nil && nt.Obj().Name() == tn {
+						keyed[core.FieldObj(v).Name()] = true
+					}
+				case *ssa.FieldAddr:
+					if nt := core.NamedOf(v.X.Type()); nt != nil && nt.Obj().Name() == tn {
+						keyed[core.FieldObj(v).Name()] = true
+					}
+				}
+			}
+		}
+		var fs []string
+		for f := range fields {
+			fs = append(fs, f)
+		}
+		sort.Strings(fs)
+		for _, f := range fs {
+			n++
+			construct := "inmem." + tn + "." + f
+			if keyed[f] {
+				r.Hold("C18.5", construct, p.FuncPos(snap), "read by the snapshot handler and part of the cache key")
+			} else {
+				r.Violate("C18.5", construct, p.FuncPos(snap), "the snapshot handler's listing depends on "+tn+"."+f+", which is not part of the subject's String(): the publisher caches and shares snapshots per topic and subject string, so a later watcher with a broader filter is served an earlier watcher's narrower snapshot and its initial listing is incomplete")
+			}
+		}
+	}
+	if n < 3 {
+		r.MissingInstance("C18.5", "<subject fields>", fmt.Sprintf("only %d subject fields read by the snapshot handler", n))
+	}
 }
